@@ -41,16 +41,16 @@ PROPERTIES = {
              'the parameter resolution cannot panic and bounds every chunk size by the known input length (no position wrap-around). '
              'Not decided: functional correctness of the merge for every key multiset, equality over all inputs.'),
     'C02': P('find/first/any/all answer with the first match in source order',
-             ['C02-MINIDX', 'C02-IDX', 'C02-FIRST', 'C02-ANYALL', 'C01-COMPOSE', 'S2', 'S4', 'S5', 'C15-CLAMP', 'C15-CHUNKCAP', 'C15-CHUNKCAP-U', 'C01-FRESH'],
+             ['C02-MINIDX', 'C02-IDX', 'C02-FIRST', 'C02-ANYALL', 'C01-COMPOSE', 'S2', 'S4', 'S5', 'C15-CLAMP', 'C15-CHUNKCAP', 'C15-CHUNKCAP-U', 'C01-FRESH', 'C02-FRESHSEQ', 'C05-SOURCE'],
              STATIC + 'Decided: the cross-thread reduction of find results is min-by-index on its whole finite domain; reported indices '
              'originate from the pull position; each task returns its own first match; any/all/find_with_index wiring. '
              'Not decided: the schedule quantifier itself (discharged compositionally through T3).'),
     'C03': P('reduce family combines every surviving element exactly once',
-             ['C03-MAYBE', 'C03-THREAD', 'C03-OUTER', 'C03-WRAP', 'C05-VISIT', 'C05-NOSKIP', 'S2', 'S4', 'S5', 'C15-CLAMP', 'C15-CHUNKCAP', 'C15-CHUNKCAP-U'],
+             ['C03-MAYBE', 'C03-THREAD', 'C03-OUTER', 'C03-WRAP', 'C05-VISIT', 'C05-NOSKIP', 'S2', 'S4', 'S5', 'C15-CLAMP', 'C15-CHUNKCAP', 'C15-CHUNKCAP-U', 'C05-SOURCE'],
              STATIC + 'Decided: maybe_reduce truth table; accumulator threading in every reduce task; outer operator is the user operator '
              'lifted over Option; provided-method wrappers. Not decided: numerical equality over schedules.'),
     'C04': P('count and for_each visit every surviving element exactly once',
-             ['C04-SUM', 'C04-THREAD', 'C04-FOREACH', 'C04-CHAIN', 'C05-VISIT', 'C05-NOSKIP', 'S2', 'S4', 'S5', 'C05-DRIVE', 'C15-CLAMP', 'C15-CHUNKCAP', 'C15-CHUNKCAP-U'],
+             ['C04-SUM', 'C04-THREAD', 'C04-FOREACH', 'C04-CHAIN', 'C05-VISIT', 'C05-NOSKIP', 'S2', 'S4', 'S5', 'C05-DRIVE', 'C15-CLAMP', 'C15-CHUNKCAP', 'C15-CHUNKCAP-U', 'C05-SOURCE'],
              STATIC + 'Decided: counts are summed with + and default 0; count accumulators are threaded; for_each = count(map(f)); counting '
              'chains cannot skip closures. Not decided: multiset equality over schedules.'),
     'C05': P('closures run exactly once per element; source advanced by one thread at a time',
@@ -65,7 +65,7 @@ PROPERTIES = {
              'appends; the write offset is the target length taken before the run; the reservation before every positional conversion covers existing '
              '+ incoming elements; nothing is appended onto a FixedVec directly. Not decided: dependency conversions keep contents.'),
     'C07': P('collect_x returns a permutation of the sequential result',
-             ['C07-FRAG', 'C07-TASK', 'C07-SEQ', 'C01-APPEND', 'C05-VISIT', 'C05-NOSKIP', 'S1', 'S2', 'S4', 'S5', 'C15-CLAMP', 'C15-CHUNKCAP', 'C15-CHUNKCAP-U'],
+             ['C07-FRAG', 'C07-TASK', 'C07-SEQ', 'C01-APPEND', 'C05-VISIT', 'C05-NOSKIP', 'S1', 'S2', 'S4', 'S5', 'C15-CLAMP', 'C15-CHUNKCAP', 'C15-CHUNKCAP-U', 'C05-SOURCE'],
              STATIC + 'Decided: every per-thread fragment returned by the runner is appended unmodified; tasks only append; sequential mode '
              'is the ordered collect. Not decided: multiset equality over schedules; append keeps all fragments (T3).'),
     'C08': P('NumThreads::Max(n) bounds concurrency; Max(1) runs on the calling thread',
